@@ -11,6 +11,10 @@ PROFILE = 'steps'
 
 def gen_case(seed):
     case = kernel.gen_case(derive(seed, 'base'))
+    k_ = 0
+    while not case['procs']:
+        k_ += 1
+        case = kernel.gen_case(derive(seed, 'base', k_))
     case['profile'] = PROFILE
     case['seed'] = seed
     r = Rng(derive(seed, 'steps'))
